@@ -42,6 +42,8 @@ STATEFUL_EXTRA = [
     {"k": "st", "fn": "scale", "col": F.ODD_NUM}, {"k": "st", "fn": "center", "col": F.ODD_NUM},
     # a float array the caller supplies through the context
     {"k": "ctx", "src": "lag(ZV)"}, {"k": "ctx", "src": "np.exp(ZV / 10)"}, {"k": "ctx", "src": "lag(ZV, -1)"},
+    # a contrasts instance the caller owns (used at full and at reduced rank, on frames with different levels)
+    {"k": "ctx", "src": "C(A, TC)"}, {"k": "ctx", "src": "C(B, TC)"},
 ]
 KNOTS = [0.75, 2.5]
 CONTEXT_K = list(KNOTS)
@@ -52,16 +54,28 @@ def zv(n):
     return np.arange(n, dtype=float) * 0.5 + 1.0
 
 
+def _tc():
+    from formulaic.transforms.contrasts import ContrastsRegistry as contr
+
+    return contr.treatment()
+
+
+CONTEXT_TC = []
+
+
 def ctx(n=None):
-    """The caller's context: a mutable list (bs(z, knots=K)) and a float array of the frame's length (lag(ZV))."""
-    c = {"K": CONTEXT_K}
+    """The caller's context: a mutable list (bs(z, knots=K)), a float array of the frame's length (lag(ZV)) and a
+    contrasts instance (C(A, TC))."""
+    if not CONTEXT_TC:
+        CONTEXT_TC.append(_tc())
+    c = {"K": CONTEXT_K, "TC": CONTEXT_TC[0]}
     if n is not None:
         c["ZV"] = CONTEXT_Z.setdefault(n, zv(n))
     return c
 
 
 def fresh_ctx(n=None):
-    c = {"K": list(KNOTS)}
+    c = {"K": list(KNOTS), "TC": _tc()}
     if n is not None:
         c["ZV"] = zv(n)
     return c
@@ -100,6 +114,10 @@ def check_history(case) -> Outcome:
             else:
                 frs[i]["cols"][col] = {"dtype": "object", "values": [["u", "v", "w"][j % 3] for j in range(n_)]}
     frames = [F.build(fr) for fr in frs]
+    for df_ in frames:
+        import pandas as pd
+
+        df_["pa_col"] = pd.array(np.arange(len(df_), dtype=float), dtype="double[pyarrow]")  # never referenced by a formula
     pristine = [df.copy(deep=True) for df in frames]
     fstrs = [F.formula_string(fc) for fc in case["formulas"]]
     formulas = [Formula(s) for s in fstrs]
@@ -113,6 +131,7 @@ def check_history(case) -> Outcome:
 
     CONTEXT_K[:] = list(KNOTS)
     CONTEXT_Z.clear()
+    CONTEXT_TC.clear()
     nrows = [len(df) for df in frames]
     # process-wide state a materialisation must leave alone
     np_err0 = dict(np.geterr())
@@ -130,6 +149,10 @@ def check_history(case) -> Outcome:
         if CONTEXT_K != KNOTS:
             out.fail("context-object-mutated", f"after {step}: the caller's list K is now {CONTEXT_K}", op=step[0])
             CONTEXT_K[:] = list(KNOTS)
+            return False
+        if CONTEXT_TC and vars(CONTEXT_TC[0]) != vars(_tc()):
+            out.fail("context-object-mutated", f"after {step}: the caller's contrasts instance now has {vars(CONTEXT_TC[0])}", op=step[0])
+            CONTEXT_TC.clear()
             return False
         for n_, arr in CONTEXT_Z.items():
             if not np.array_equal(arr, zv(n_)):
